@@ -602,4 +602,70 @@ def applyEvent (s : DbgState) : Event → Option DbgState
       | some _ => some s    -- interrogated and running: RecordThreadFinished keeps the entries
       | none => some { s with stacks := del tid s.stacks }
 
+
+/-! ## VisitState: what an evaluating thread does with the debugger's lock
+
+The command side can only be total if no thread keeps `ed.lock` while it waits in
+`waitForContinue`. `visitEvents` is the sequence of lock operations and wait points of one
+call of `VisitState` (debug.go, after fix ea3a1ee: while stepping over / out of a function
+the thread stops at active break points on the way), as a function of the branch conditions.
+`deferred = true` is the variant in which the break point lookup of the step branch releases
+its read lock by `defer` (function exit) instead of right after the map read. -/
+
+inductive LockEv where
+  | rlock | runlock | wlock | wunlock
+  | wait      -- is.waitForContinue()
+  | goexit    -- runtime.Goexit() of a killed thread
+  deriving DecidableEq, Repr
+
+/-- the branch conditions of one VisitState call -/
+structure VisitIn where
+  known : Bool                     -- callStacks has an entry for the thread
+  hasToken : Bool                  -- node.Token != nil (statement lists have none)
+  sourceKnown : Bool
+  istate : Option (ICmd × Bool)    -- interrogation state: its command, "on another line than is.node"
+  bpActive : Bool                  -- an active break point on this line
+  breakOnStart : Bool
+  deriving DecidableEq, Repr
+
+/-- the branch without interrogation state (also the tail call after a resume command was removed) -/
+def visitFresh (i : VisitIn) : List LockEv :=
+  if i.bpActive || i.breakOnStart then [.wlock, .wunlock, .wait] else []
+
+def visitEvents (deferred : Bool) (i : VisitIn) : List LockEv :=
+  [.rlock, .runlock] ++ (if i.known then [] else [.wlock, .wunlock]) ++
+  (if !i.hasToken then [] else
+    [.rlock, .runlock] ++ (if i.sourceKnown then [] else [.wlock, .wunlock]) ++
+    match i.istate with
+    | none => visitFresh i
+    | some (cmd, otherLine) =>
+      match cmd with
+      | .resume => if otherLine then [.wlock, .wunlock, .rlock, .runlock, .rlock, .runlock] ++ visitFresh i else []
+      | .kill => if otherLine then [.wlock, .wunlock, .goexit] else []
+      | .stop => [.wait]
+      | .stepIn | .stepOver => if otherLine then [.wait] else []
+      | .stepOut =>
+        if otherLine then
+          if deferred then [.rlock] ++ (if i.bpActive then [.wait] else []) ++ [.runlock]
+          else [.rlock, .runlock] ++ (if i.bpActive then [.wait] else [])
+        else [])
+
+/-- number of holds of `ed.lock` by the thread after each prefix; recorded at every wait point -/
+def heldAtWaits : List LockEv → Nat → List Nat
+  | [], _ => []
+  | .rlock :: r, n => heldAtWaits r (n + 1)
+  | .wlock :: r, n => heldAtWaits r (n + 1)
+  | .runlock :: r, n => heldAtWaits r (n - 1)
+  | .wunlock :: r, n => heldAtWaits r (n - 1)
+  | .wait :: r, n => n :: heldAtWaits r n
+  | .goexit :: r, n => heldAtWaits r n
+
+def heldAfter : List LockEv → Nat → Nat
+  | [], n => n
+  | .rlock :: r, n => heldAfter r (n + 1)
+  | .wlock :: r, n => heldAfter r (n + 1)
+  | .runlock :: r, n => heldAfter r (n - 1)
+  | .wunlock :: r, n => heldAfter r (n - 1)
+  | _ :: r, n => heldAfter r n
+
 end Ecal.DebugCmd
